@@ -11,8 +11,10 @@
         * __delitem__ prunes empty nodes upwards and, when the pruning reaches an empty root, ends in
           `root.children.pop("")`, i.e. a KeyError *after* the deletion was carried out (`del` returns that flag);
         * children dictionaries are kept in the fixed order '0','1' (python: insertion order); the harness compares
-          `values()`/`suffixes()` as sorted collections.  `suffixes`' "if suffix not in suffixes" de-duplication never
-          removes anything (keys of a trie are distinct), the model lists keys directly.
+          `values()`/`suffixes()` as sorted collections.  The code's `suffixes` produces every direct child that has a
+          value twice (once as `char`, once as `char + ""` from the nested call) and relies on its
+          "if suffix not in suffixes" test to drop the second copy; the model lists each key once directly (same result
+          as a set; the literal duplicate-then-drop is not modelled).
     Bucket.owns / add / split / generateId                              <->  routing.py Bucket.owns / add / split / generate_id
         * add: owner test, update-in-place of an existing id (address only), then — only when full — evict the first
           BAD node AND, independently, the first node whose rtt is at least twice the newcomer's (both can fire),
@@ -145,10 +147,16 @@ deriving DecidableEq, Repr
 
 /-- `Node.status` (codes and threshold regenerated from the source): enough failures in a row make a node BAD whatever
     its last contact was; otherwise recent contact makes it GOOD, else UNKNOWN -/
-def Node.status (n : Node) : Nat :=
-  if n.failed ≥ Gen.badFailedThreshold then Gen.statusBad
-  else if n.recent then Gen.statusGood
-  else Gen.statusUnknown
+def Node.statusFrom (rules : List (Bool × Nat)) (dflt : Nat) (n : Node) : Nat :=
+  match rules with
+  | [] => dflt
+  | (onFailed, code) :: rest =>
+    if (if onFailed then decide (n.failed ≥ Gen.badFailedThreshold) else n.recent) then code
+    else Node.statusFrom rest dflt n
+
+/-- the decision list of `Node.status` is GENERATED from the source, in source order: each rule is (tests the failure
+    count? else tests recent contact, returned code) -/
+def Node.status (n : Node) : Nat := Node.statusFrom Gen.statusRules Gen.statusDefault n
 
 /-- `node.status == NODE_STATUS_BAD` -/
 def Node.bad (n : Node) : Bool := n.status == Gen.statusBad
@@ -156,6 +164,7 @@ def Node.bad (n : Node) : Bool := n.status == Gen.statusBad
 structure Bucket where
   pfx : Bits
   nodes : List Node      -- dict in insertion order
+  cap : Nat              -- max_size: a per-bucket field, handed from parent to children in `split`
 deriving DecidableEq, Repr
 
 namespace Bucket
@@ -165,7 +174,8 @@ def owns (b : Bucket) (id : Bits) : Bool := b.pfx.isPrefixOf id
 
 def get (b : Bucket) (id : Bits) : Option Node := b.nodes.find? (fun x => x.id == id)
 
-/-- the rtt eviction test `node.rtt and n.rtt / node.rtt >= 2.0` (rtts are naturals here) -/
+/-- the rtt eviction test `node.rtt and n.rtt / node.rtt >= 2.0`; rtts are naturals counting 1/1024 s (the harness uses
+    exactly these dyadic floats, for which the float division compares exactly) -/
 def slower (newcomer : Node) (x : Node) : Bool := newcomer.rtt != 0 && x.rtt ≥ Gen.rttRatio * newcomer.rtt
 
 /-- the "make room if needed" part of `Bucket.add`: only when full, drop the first BAD node and then, independently,
@@ -173,24 +183,28 @@ def slower (newcomer : Node) (x : Node) : Bool := newcomer.rtt != 0 && x.rtt ≥
 def evicted (m : Nat) (b : Bucket) (n : Node) : List Node :=
   if b.nodes.length ≥ m then (b.nodes.eraseP (fun x => x.bad)).eraseP (slower n) else b.nodes
 
-/-- `Bucket.add`: new bucket and the returned boolean -/
-def add (m : Nat) (b : Bucket) (n : Node) : Bucket × Bool :=
+/-- `Bucket.add` for a capacity `m`: new bucket and the returned boolean -/
+def addM (m : Nat) (b : Bucket) (n : Node) : Bucket × Bool :=
   if !b.owns n.id then (b, false)
   else if b.nodes.any (fun x => x.id == n.id) then
     ({ b with nodes := b.nodes.map (fun x => if x.id == n.id then { x with addr := n.addr } else x) }, true)
   else if (evicted m b n).length < m then ({ b with nodes := evicted m b n ++ [n] }, true)
   else ({ b with nodes := evicted m b n }, false)
 
-/-- one step of the loop in `split` -/
-def splitStep (m : Nat) (acc : Bucket × Bucket) (n : Node) : Bucket × Bucket :=
-  if acc.1.owns n.id then ((acc.1.add m n).1, acc.2)
-  else if acc.2.owns n.id then (acc.1, (acc.2.add m n).1)
+/-- `Bucket.add`: the capacity is the bucket's own `max_size` -/
+def add (b : Bucket) (n : Node) : Bucket × Bool := addM b.cap b n
+
+/-- one step of the loop in `split` (each child adds under its OWN capacity) -/
+def splitStep (acc : Bucket × Bucket) (n : Node) : Bucket × Bucket :=
+  if acc.1.owns n.id then ((acc.1.add n).1, acc.2)
+  else if acc.2.owns n.id then (acc.1, (acc.2.add n).1)
   else acc
 
-/-- `Bucket.split` -/
-def split (m : Nat) (b : Bucket) : Option (Bucket × Bucket) :=
-  if b.nodes.length < m then none
-  else some (b.nodes.foldl (splitStep m) ({ pfx := b.pfx ++ [false], nodes := [] }, { pfx := b.pfx ++ [true], nodes := [] }))
+/-- `Bucket.split`: `Bucket(self.prefix_id + "0", self.max_size)`, `Bucket(self.prefix_id + "1", self.max_size)` -/
+def split (b : Bucket) : Option (Bucket × Bucket) :=
+  if b.nodes.length < b.cap then none
+  else some (b.nodes.foldl splitStep
+    ({ pfx := b.pfx ++ [false], nodes := [], cap := b.cap }, { pfx := b.pfx ++ [true], nodes := [], cap := b.cap }))
 
 end Bucket
 
@@ -211,13 +225,32 @@ def xorBits : Bits → Bits → Bits
 /-- `distance(a, b)` for equally long identifiers -/
 def dist (a b : Bits) : Nat := bitsToNat (xorBits a b)
 
-/-- `Bucket.generate_id` (after the repair): prefix followed by `width - |prefix|` random bits `r` -/
-def Bucket.generateId (width : Nat) (b : Bucket) (r : Nat) : Bits :=
-  b.pfx ++ natToBits (width - b.pfx.length) r
+/-- number of binary digits of `r` (0 for 0), with explicit fuel -/
+def sizeAux : Nat → Nat → Nat
+  | 0, _ => 0
+  | f + 1, r => if r = 0 then 0 else 1 + sizeAux f (r / 2)
+def bitSize (r : Nat) : Nat := sizeAux r r
+
+/-- python `format(r, "0<n>b")`: at LEAST `n` binary digits — zero padded when shorter, never truncated -/
+def formatBin (n r : Nat) : Bits := natToBits (max n (max 1 (bitSize r))) r
+
+/-- python `binascii.unhexlify(format(v, "0<w/4>X"))` read back as bits: at least `w/4` hex digits, never truncated;
+    an odd number of digits makes unhexlify raise (`none`) -/
+def hexBytes (w v : Nat) : Option Bits :=
+  let digits := max (w / 4) ((bitSize v + 3) / 4)
+  if digits % 2 = 1 then none else some (natToBits (4 * digits) v)
+
+/-- `Bucket.generate_id` (after the repair), step by step as in the code, `r` = the value the random source returned:
+    `suffix = format(r, "0<n>b") if n else ""; unhexlify(format(int(prefix + suffix, 2), "040X"))` -/
+def Bucket.generateId (width : Nat) (b : Bucket) (r : Nat) : Option Bits :=
+  let n := width - b.pfx.length
+  let suffix := if n = 0 then [] else formatBin n r
+  hexBytes width (bitsToNat (b.pfx ++ suffix))
 
 /-- `Bucket.generate_id` as it was before the repair (kept for the negative theorem):
     `format(randint(0, 2**(width-|prefix|)), "0<width>b")`, the prefix is never used -/
-def Bucket.generateIdOld (width : Nat) (_b : Bucket) (r : Nat) : Bits := natToBits width r
+def Bucket.generateIdOld (width : Nat) (_b : Bucket) (r : Nat) : Option Bits :=
+  hexBytes width (bitsToNat (formatBin width r))
 
 structure RT where
   me : Bits
@@ -234,7 +267,7 @@ deriving DecidableEq, Repr
 namespace RT
 
 /-- `RoutingTable.__init__` -/
-def init (me : Bits) : RT := { me := me, trie := (Trie.empty).set [] { pfx := [], nodes := [] } }
+def init (me : Bits) (m : Nat) : RT := { me := me, trie := (Trie.empty).set [] { pfx := [], nodes := [], cap := m } }
 
 /-- `get_bucket`: key and bucket (`longest_prefix_value(..., default=None) or self.trie[""]`) -/
 def getBucket (rt : RT) (id : Bits) : Option (Bits × Bucket) :=
@@ -243,27 +276,27 @@ def getBucket (rt : RT) (id : Bits) : Option (Bits × Bucket) :=
   | none => (rt.trie.get []).map (fun b => ([], b))
 
 /-- `RoutingTable.add` with explicit fuel for the split-and-retry recursion -/
-def addFuel (m : Nat) : Nat → RT → Node → RT × AddRes
+def addFuel : Nat → RT → Node → RT × AddRes
   | 0, rt, _ => (rt, .outOfFuel)
   | fuel + 1, rt, n =>
     match rt.getBucket n.id with
     | none => (rt, .keyError)
     | some (p, b) =>
-      let r := b.add m n
+      let r := b.add n
       let b' := r.1
       let rt' : RT := { rt with trie := rt.trie.set p b' }
       if r.2 then (rt', match b'.get n.id with | some x => .stored x | none => .none)
       else if b'.owns rt.me then
-        match b'.split m with
+        match b'.split with
         | none => (rt', .none)
         | some (b0, b1) =>
           let t1 := (rt'.trie.set (b'.pfx ++ [false]) b0).set (b'.pfx ++ [true]) b1
           let d := t1.del b'.pfx
           if d.2 then ({ rt with trie := d.1 }, .keyError)
-          else addFuel m fuel { rt with trie := d.1 } n
+          else addFuel fuel { rt with trie := d.1 } n
       else (rt', .none)
 
-def add (m : Nat) (rt : RT) (n : Node) : RT × AddRes := addFuel m (n.id.length + 1) rt n
+def add (rt : RT) (n : Node) : RT × AddRes := addFuel (n.id.length + 1) rt n
 
 /-- `remove_bad_nodes`: new table and the removed nodes (bucket order of `values()`) -/
 def removeBad (rt : RT) : RT × List Node :=
@@ -333,11 +366,11 @@ inductive Op where
   | setNode (id : Bits) (failed : Nat) (recent : Bool) (rtt : Nat)
 deriving Repr
 
-def step (m : Nat) (rt : RT) : Op → RT
-  | .add n => (rt.add m n).1
+def step (rt : RT) : Op → RT
+  | .add n => (rt.add n).1
   | .removeBad => rt.removeBad.1
   | .setNode id failed recent rtt => rt.setNode id failed recent rtt
 
-def run (m : Nat) (rt : RT) (ops : List Op) : RT := ops.foldl (step m) rt
+def run (rt : RT) (ops : List Op) : RT := ops.foldl step rt
 
 end Ipv8.C14
